@@ -58,3 +58,34 @@ func (m *Merged) SetKeys(name string) []string {
 var Registry = map[string]*Prop{}
 
 func register(p *Prop) { Registry[p.ID] = p }
+
+// StageCounters names, per property, the counters of stages that must have run (a stage that silently observed nothing
+// makes the run inconclusive, not a pass). All of them are functions of the case list alone.
+var StageCounters = map[string][]string{
+	"C01": {"parses_with_a_caller_supplied_context", "deep_cases"},
+	"C03": {"recycled_buffer_histories", "truncated_multibyte_before_significant_character", "attribute_block_documents"},
+	"C04": {"recycled_buffer_histories", "unsafe_twin_renders_before_the_safe_one"},
+	"C05": {"trees_parsed_with_a_reused_context", "family_cases"},
+	"C06": {"op_convert_from_recycled_buffer", "twin_payload_documents", "role_matrix_documents"},
+	"C07": {"calls_that_end_with_a_node_renderer_error"},
+	"C09": {"twin_pairs_through_a_recycled_buffer", "definition_moves_with_near_miss_labels_defined_in_D", "definition_moves_with_many_own_definitions"},
+	"C10": {"recycled_buffer_steps", "decorated_trees"},
+	"C11": {"ascii_documents_compared_after_their_wide_character_twin", "conversions_by_neighbour_instances_sharing_extension_values", "line_ending_documents", "wide_character_documents_on_a_cjk_base"},
+	"C14": {"histories", "history_nested_renders", "history_conversions_ending_with_node_renderer_error", "history_conversions_with_node_renderer_error_and_failing_writer"},
+	"C15": {"documents_with_ids_of_a_chosen_length", "documents_with_many_headings"},
+	"C16": {"context_histories", "documents_parsed_with_a_reused_context"},
+	"C18": {"calls_Reset", "long_source_cases"},
+	"C19": {"big_filter_runs", "big_filter_full_membership_sweeps", "filter_programs"},
+	"C20": {"scenarios_with_one_object_registered_twice", "shared_trigger_line_follows_a_paragraph_that_is_transformed_away"},
+}
+
+// StageFloors returns the stages of a property that did not run.
+func StageFloors(id string, m *Merged) []string {
+	var out []string
+	for _, k := range StageCounters[id] {
+		if m.Counters[k] == 0 {
+			out = append(out, "stage did not run or observed nothing: "+k)
+		}
+	}
+	return out
+}
